@@ -208,6 +208,20 @@ pub fn run(ctx: &mut Ctx) {
         let res = super::c13::oracle(ctx, &c);
         ctx.judge(&c, res);
     }
+    // outputs whose chunk offsets straddle 2^32 (sink handed over just below 4 GiB), including chunks
+    // that are only flushed by write_end, judged by the same validator
+    let n = ctx.pick(240u64, 2400u64);
+    let mut runner = crate::gen::fixed_runner(7);
+    let fam = super::c13::family_a();
+    for i in 0..n {
+        let c = crate::gen::draw(&fam, &mut runner);
+        if !ctx.enter(1 + i) {
+            continue;
+        }
+        ctx.pre_case(&c);
+        let res = super::c13::oracle(ctx, &c);
+        ctx.judge(&c, res);
+    }
 }
 
 pub fn replay(ctx: &mut Ctx, stage: &str, case: &Value) -> Check {
